@@ -95,12 +95,30 @@ Theorem C03_dataset_len_translated : forall (rows : list A) a b,
   (forall r, gen_dataset_getitem rows (a, b) = Some r -> gen_dataset_len r = Some (Z.of_nat (length (py_slice rows a b)))).
 Proof. exact (fun rows a b => conj (gen_dataset_len_spec rows) (gen_dataset_getitem_spec rows a b)). Qed.
 
+(* num_examples (translated) is the row count, validated or not *)
+Theorem C03_num_examples_translated : forall (rows : list A) v,
+  gen_num_examples rows v = Some (Z.of_nat (length rows)).
+Proof. exact gen_num_examples_spec. Qed.
+
 (* PaddedBatchView.__iter__ with the translated pad_examples (None = it raised) yields
    exactly the modelled view: the ValueError guard never fires, for every N, bs, buckets *)
 Theorem C03_padded_view_never_raises : forall (raw : list A) bs nb, 1 <= bs ->
   padded_view_checked zero (map f) raw bs nb = padded_view zero (map f) raw bs nb.
 Proof. exact (padded_view_checked_rowwise zero f). Qed.
 End C03.
+
+(* assert_consistent_rows (translated, over the columns' row counts): accepts exactly the
+   non-empty dicts whose columns all have the same number of rows -- the invariant under
+   which a dataset is ONE list of rows *)
+Theorem C03_consistent_rows_translated : forall sizes,
+  gen_assert_consistent_rows sizes = Some tt <-> exists s rest, sizes = s :: rest /\ Forall (fun v => v = s) rest.
+Proof. exact gen_assert_consistent_rows_spec. Qed.
+
+(* defaults of BatchHParams / PaddedBatchHParams (translated from the class bodies) are the
+   documented ones: drop_remainder = False, num_batch_size_buckets = 1 *)
+Theorem C03_hparams_defaults :
+  hp_batch_drop_remainder_default = false /\ hp_padded_num_batch_size_buckets_default = 1.
+Proof. exact hparams_defaults_c03. Qed.
 
 (* BatchPreprocessor.__call__ (translated): the chain loop is the left fold in
    registration order, for arbitrary batch functions and in particular per-example ones *)
@@ -137,5 +155,8 @@ Print Assumptions C03_pad_examples_translated.
 Print Assumptions C03_attach_mask_translated.
 Print Assumptions C03_slice_examples_translated.
 Print Assumptions C03_dataset_len_translated.
+Print Assumptions C03_num_examples_translated.
+Print Assumptions C03_consistent_rows_translated.
+Print Assumptions C03_hparams_defaults.
 Print Assumptions C03_padded_view_never_raises.
 Print Assumptions C03_preprocessor_call_translated.
